@@ -55,6 +55,8 @@ func auName(c string) string {
 	case "two":
 		n += strings.Repeat("w", 64-len(n))
 	case "tss":
+		// every character class a chain name may contain: letters, digits and . _ + - # [ ] < >
+		n += ".a_b+c-d#e[f]g<h>9"
 		n += strings.Repeat("s", 51-len(n))
 	}
 	return n
@@ -342,6 +344,10 @@ func driveAuth(t *testing.T, in, out string, seed int64) {
 				if res != "ok" {
 					line["res"] = "err"
 				}
+			case "Regenesis":
+				// the host chain is restarted from its own exported genesis
+				res, msg := a.W.Regenesis("A")
+				line["res"], line["msg"] = res, clip(msg)
 			case "Rotate":
 				// governance moves the TSS client to another TSS account: an UpgradeClientProposal with a new client state
 				to := auAcct[str(st["to"])]
